@@ -530,6 +530,9 @@ func (p *PipelinedMemDB) Staging() int {
 // Cleanup implements MemBuffer interface.
 func (p *PipelinedMemDB) Cleanup(h int) {
 	p.memDB.Cleanup(h)
+	// BatchGet also caches the values it found in the local buffers, which may belong to the
+	// staging level that has just been discarded.
+	p.batchGetCache = nil
 }
 
 // Release implements MemBuffer interface.
